@@ -25,6 +25,8 @@ MUTATOR_NAMES = {'append', 'extend', 'insert', 'pop', 'remove', 'clear', 'update
 def ext_value(dotted):
     if dotted in ('ecdsa.ellipticcurve.INFINITY',):
         return T.INFINITY
+    if dotted == 'ecdsa.curves.SECP256k1.baselen':
+        return T.const(32)
     if dotted == 'sys.argv':
         return T.sym('sys.argv', type='list')
     if dotted == 'os.linesep':
